@@ -12,3 +12,6 @@ import MidoProofs.SrcTie.Writer
 #print axioms Mido.src_wt_loop
 #print axioms Mido.fixEot_toW
 #print axioms Mido.src_write_track
+#print axioms Mido.packI16_eq
+#print axioms Mido.src_save_loop
+#print axioms Mido.src_save
